@@ -188,7 +188,7 @@ fn case<B: Fld, E: FieldElement<BaseField = B>, H: ElementHasher<BaseField = B>>
     let last_domain = domain / c.fold.pow(layers as u32);
     let rem_size = last_domain / c.blowup;
     let (f, fkind) = far_function::<B, E>(rng, n, domain);
-    let strategy = ["honest-folding", "remainder-after-queries", "remainder-plus-vanishing", "tampered-layer-value", "wrong-alpha", "omitted-layer", "swapped-layers", "wrong-degree-claim", "oversized-remainder", "claimed-evaluation-mismatch", "partitioned-layout", "rows-made-up-after-the-queries"][(i % 12) as usize];
+    let strategy = ["honest-folding", "remainder-after-queries", "remainder-plus-vanishing", "tampered-layer-value", "wrong-alpha", "omitted-layer", "swapped-layers", "wrong-degree-claim", "oversized-remainder", "claimed-evaluation-mismatch", "partitioned-layout", "rows-made-up-after-the-queries", "stretched-remainder"][(i % 13) as usize];
     let desc = |extra: &str| {
         J::obj(vec![("config", J::s(tag)), ("strategy", J::s(strategy)), ("function", J::s(&fkind)), ("blowup", J::i(c.blowup)), ("folding", J::i(c.fold)), ("remainder_max_degree", J::i(c.rem)), ("degree_bound", J::i(n - 1)), ("domain", J::i(domain)), ("queries", J::i(c.queries)), ("layers", J::i(layers)), ("detail", J::s(extra))])
     };
@@ -287,6 +287,38 @@ fn case<B: Fld, E: FieldElement<BaseField = B>, H: ElementHasher<BaseField = B>>
                 return;
             };
             verdict(st, "remainder substituted after the query positions were known", proof, inst.commitments, &f, &inst.positions, n - 1, None);
+        },
+        "stretched-remainder" => {
+            // committed before the queries: a function that folds (honestly, with the true coordinates) into the
+            // values of a small polynomial R over the first half of a domain of TWICE the size of the last layer,
+            // and the remainder R zero-padded to twice the regular length. Every layer and the remainder commitment
+            // are honest; only the comparison of the last layer with the remainder, evaluated at the points of the
+            // real last domain, refuses it (position 0 agrees, every other one differs)
+            if layers == 0 || rem_size < 2 || 2 * rem_size > 256 {
+                st.count("skipped.no_layers");
+                return;
+            }
+            frih::STRETCHED_REMAINDER.with(|c| c.set(true));
+            let g0 = frih::unfolded_function::<B, E>(rng, domain, &opts, 0, frih::RowCoord::DomainPosition, rem_size);
+            let pos: Vec<usize> = (0..c.queries).map(|_| rng.usize(domain)).collect();
+            let mp = g0.as_ref().and_then(|g0| frih::manual_prove::<B, E, H>(g0, &opts, &pos, 0, frih::RowCoord::DomainPosition));
+            frih::STRETCHED_REMAINDER.with(|c| c.set(false));
+            let (Some(g0), Some(mp)) = (g0, mp) else {
+                st.count("skipped.stretched_remainder_not_constructible");
+                return;
+            };
+            // the oracle is an independent recomputation of the acceptance condition: the last layer refolded with
+            // the coin's challenges against the sent remainder evaluated at the points of the real last domain (they
+            // agree at position 0 only, unless the small polynomial happens to be constant)
+            let fin = final_positions(&pos, domain, c.fold, layers);
+            let ll = last_layer::<B, E, H>(&g0, &mp.commitments, c.fold, layers);
+            let rem: Vec<E> = mp.proof.parse_remainder().unwrap_or_default();
+            let gl = B::get_root_of_unity(last_domain.ilog2());
+            let lucky = fin.iter().all(|&p| p_eval::<E, E>(&rem, E::from(B::GENERATOR * gl.exp_vartime(B::pi(p as u128)))) == ll[p]);
+            if lucky {
+                st.count("stretched.consistent_by_construction(constant polynomial or position 0 only)");
+            }
+            verdict(st, "remainder zero-padded to twice its length, last layer = its values over half of the doubled domain", mp.proof, mp.commitments, &g0, &pos, n - 1, Some(lucky));
         },
         "rows-made-up-after-the-queries" => {
             // the honest proof of a genuine low-degree polynomial, with the opened rows of the first
@@ -529,12 +561,12 @@ fn main() {
     drive::<B128, B128, Blake3_192<B128>>(&run, "f128/Blake3_192", n);
     drive::<B128, QuadExtension<B128>, Sha3_256<B128>>(&run, "f128^2/Sha3_256", n / 2);
     let mut require = Vec::new();
-    for s in ["honest-folding", "remainder-after-queries", "remainder-plus-vanishing", "tampered-layer-value", "wrong-alpha", "omitted-layer", "swapped-layers", "wrong-degree-claim", "oversized-remainder", "claimed-evaluation-mismatch", "partitioned-layout", "rows-made-up-after-the-queries"] {
+    for s in ["honest-folding", "remainder-after-queries", "remainder-plus-vanishing", "tampered-layer-value", "wrong-alpha", "omitted-layer", "swapped-layers", "wrong-degree-claim", "oversized-remainder", "claimed-evaluation-mismatch", "partitioned-layout", "rows-made-up-after-the-queries", "stretched-remainder"] {
         require.push((format!("rejected.{s}"), 20));
     }
     require.push(("oracle.recomputed_rejection_required".into(), 50));
     run.finish(Finish {
-        rule: "instances: blowup 2..32 x folding 2..16 x remainder max degree 0..31 x degree bounds 3..511, domain 16..4096, 100 queries (honest-folding acceptance probability <= max(1/blowup,3/4)^q <= 2^-40); functions: random, polynomial of degree bound+1, of degree in (bound+1..domain-1), of degree domain-1, low-degree corrupted on 1/4, 1/2, 3/4 of the domain; strategies (all commit honestly to each folded layer): honest folding, remainder interpolated through the queried points after seeing them, honest remainder + c*vanishing polynomial of the queried points, oversized remainder, one layer value tampered, folding with alpha+1 at one layer (also for genuine low-degree inputs; cases in which alpha+1 folds identically are not deviations and are skipped), first-layer rows rewritten after the positions are known (queried entries carry the far function, an unqueried entry of the row is adjusted so that the row folds to the same value; partition field 0 or 16), a hand-written prover committing in the layout with 2/4/8 partitions (honest folding of the far function; a function unfolded from small polynomials with the coordinates of the rows' leaf indexes and folded with those coordinates), evaluations claimed to the verifier that differ from the committed first layer at queried positions sharing a coset with other queried positions (altered one first / middle / last in the list), a layer omitted / two layers swapped (with and without the matching commitment edit), too small a degree claim for a genuine polynomial. Expected: rejected or unparsable; an acceptance under honest folding is tolerated only if an independent recomputation (last layer refolded with the coin's challenges, remainder evaluated at every final position) shows all queried positions consistent. distinct = distinct generated instance".into(),
+        rule: "instances: blowup 2..32 x folding 2..16 x remainder max degree 0..31 x degree bounds 3..511, domain 16..4096, 100 queries (honest-folding acceptance probability <= max(1/blowup,3/4)^q <= 2^-40); functions: random, polynomial of degree bound+1, of degree in (bound+1..domain-1), of degree domain-1, low-degree corrupted on 1/4, 1/2, 3/4 of the domain; strategies (all commit honestly to each folded layer): honest folding, remainder interpolated through the queried points after seeing them, honest remainder + c*vanishing polynomial of the queried points, oversized remainder, one layer value tampered, folding with alpha+1 at one layer (also for genuine low-degree inputs; cases in which alpha+1 folds identically are not deviations and are skipped), first-layer rows rewritten after the positions are known (queried entries carry the far function, an unqueried entry of the row is adjusted so that the row folds to the same value; partition field 0 or 16), a hand-written prover committing in the layout with 2/4/8 partitions (honest folding of the far function; a function unfolded from small polynomials with the coordinates of the rows' leaf indexes and folded with those coordinates), evaluations claimed to the verifier that differ from the committed first layer at queried positions sharing a coset with other queried positions (altered one first / middle / last in the list), a function that folds honestly into the values of a small polynomial over half of a domain of twice the size, with that polynomial zero-padded to twice the regular length as the (honestly committed) remainder, a layer omitted / two layers swapped (with and without the matching commitment edit), too small a degree claim for a genuine polynomial. Expected: rejected or unparsable; an acceptance under honest folding is tolerated only if an independent recomputation (last layer refolded with the coin's challenges, remainder evaluated at every final position) shows all queried positions consistent. distinct = distinct generated instance".into(),
         assumptions: vec![
             "finite strategy library: a clean run means none of these strategies was accepted, not soundness".into(),
             "evaluations of test polynomials use the library FFT (C09); refolding uses apply_drp (C15)".into(),
